@@ -18,6 +18,31 @@ from google.protobuf import message_factory as _mf
 from google.protobuf.message import Message as _PBMessage
 
 FD = _d.FieldDescriptor
+
+try:  # under CrossHair the builtins getattr()/setattr() call __getattr__/__setattr__ with tracing PAUSED; resume it
+  from crosshair.statespace import optional_context_statespace as _space
+  from crosshair.tracers import ResumedTracing as _Resumed
+  from crosshair.tracers import is_tracing as _is_tracing
+  _CH = True
+except Exception:  # noqa  (native replay without crosshair)
+  _CH = False
+
+
+class _Traced:
+  __slots__ = ('c',)
+
+  def __enter__(self):
+    self.c = None
+    if _CH and not _is_tracing() and _space() is not None:
+      self.c = _Resumed()
+      self.c.__enter__()
+    return self
+
+  def __exit__(self, *a):
+    if self.c is not None:
+      self.c.__exit__(*a)
+    return False
+
 _INT_TYPES = (FD.CPPTYPE_INT32, FD.CPPTYPE_INT64, FD.CPPTYPE_UINT32, FD.CPPTYPE_UINT64)
 _SCALAR_DEFAULT = {
     FD.CPPTYPE_INT32: 0, FD.CPPTYPE_INT64: 0, FD.CPPTYPE_UINT32: 0, FD.CPPTYPE_UINT64: 0,
@@ -184,7 +209,7 @@ class SymMessage(_PBMessage):
       elif f.cpp_type == FD.CPPTYPE_MESSAGE:
         getattr(self, k).CopyFrom(v)
       else:
-        setattr(self, k, v)
+        self._set_present(k, _coerce(f, v))
 
   # -- presence bookkeeping -------------------------------------------------------------------------------------
   def _mark(self):
@@ -228,7 +253,8 @@ class SymMessage(_PBMessage):
       raise AttributeError('Assignment not allowed (no field "%s" in protocol message object).' % name)
     if f.is_repeated or f.cpp_type == FD.CPPTYPE_MESSAGE:
       raise AttributeError('Assignment not allowed to composite field "%s" in protocol message object.' % name)
-    self._set_present(name, _coerce(f, value))
+    with _Traced():
+      self._set_present(name, _coerce(f, value))
 
   def HasField(self, name):
     if name in self._desc.oneofs_by_name:
